@@ -249,6 +249,10 @@ class Sim:
         self._patch(bc, 'monotonic', self.clock)
         self._patch(bp, 'os', OsProxy(self))
         self._patch(bp, '_kill', lambda pid, sig: sim.kill(pid, sig, 'pool._kill'))
+        # every history is a fresh program: job ids start at 0 again (job 0
+        # is special-cased by more than one historical defect)
+        import itertools
+        self._patch(bp, 'job_counter', itertools.count())
 
         class StubProc(context.ForkProcess):
             @staticmethod
@@ -709,12 +713,24 @@ class Sim:
         self.stat('submit_apply')
         return j
 
-    def submit_multi(self, kind, unpicklable_at=None):
+    def submit_multi(self, kind, unpicklable_at=None, raise_at=None):
+        """raise_at=k: the input iterable of an imap raises after yielding k
+        items (k may be 0): whatever the pool does with the job itself, no
+        other job may be touched"""
         rng, p = self.rng, self.prof
         self.begin('submit')
         n = rng.choice(p.get('map_lens', [1, 2, 3, 4, 5, 7]))
+        if raise_at is not None:
+            raise_at = raise_at % (n + 1)
+            n = raise_at
         items = ['it-%d' % k for k in range(n)]
         send_items = list(items)
+        if raise_at is not None:
+            def broken(xs=list(items)):
+                for x in xs:
+                    yield x
+                raise ValueError('broken input of job')
+            send_items = broken()
         if unpicklable_at is not None:
             unpicklable_at = unpicklable_at % n
             send_items[unpicklable_at] = (lambda: 0)
@@ -732,6 +748,9 @@ class Sim:
             f = self.pool.imap if kind == 'imap' else self.pool.imap_unordered
             h = f(_never_called, send_items, 1, lost_worker_timeout=T)
             nparts = n
+            if raise_at is not None:
+                j.send_failed.add(n)          # the input failed after n items
+                self.stat('raising_input_iterables')
             j.chunk = 1
             j.T = T or p.get('T', 3.0)
         if h is None:
@@ -767,6 +786,8 @@ class Sim:
                       job=j.jid, expected=expect, got=got)
         if unpicklable_at is not None:
             self.wait_handler_idle(h if kind == 'map' else None)
+        if raise_at is not None:
+            self.wait_handler_idle(None)
         if kind != 'map':
             # the length announcement follows the last task
             t_end = time.monotonic() + 3
@@ -1392,6 +1413,8 @@ class Sim:
                     acts.append((wt[k], (k,)))
             if wt.get('multi_unpicklable'):
                 acts.append((wt['multi_unpicklable'], ('multi_unpicklable',)))
+            if wt.get('imap_raising'):
+                acts.append((wt['imap_raising'], ('imap_raising',)))
         for w in live:
             if w.termed:
                 acts.append((wt.get('obey_term', 6), ('obey_term', w)))
@@ -1422,13 +1445,16 @@ class Sim:
         k = act[0]
         rng = self.rng
         if k in ('apply', 'apply_handler', 'apply_unpicklable', 'map', 'imap',
-                 'imap_u', 'multi_unpicklable'):
+                 'imap_u', 'multi_unpicklable', 'imap_raising'):
             if k == 'apply':
                 j = self.submit_apply()
             elif k == 'apply_handler':
                 j = self.submit_apply(via_handler=True, limits=False)
             elif k == 'apply_unpicklable':
                 j = self.submit_apply(via_handler=True, unpicklable=True, limits=False)
+            elif k == 'imap_raising':
+                j = self.submit_multi(rng.choice(['imap', 'imap_u']),
+                                      raise_at=rng.choice([0, 0, 1, 2, 3]))
             elif k == 'multi_unpicklable':
                 j = self.submit_multi(rng.choice(['map', 'imap', 'imap_u']),
                                       unpicklable_at=rng.randrange(8))
